@@ -313,7 +313,13 @@ class AsyncServer(base_server.BaseServer):
                                     r = packets
                             except exceptions.EngineIOError:
                                 if sid in self.sockets:  # pragma: no cover
-                                    await self.disconnect(sid)
+                                    # end the session without waiting for its
+                                    # queue to be read: the client may never
+                                    # come back to read it
+                                    await socket.close(
+                                        wait=False,
+                                        reason=self.reason.SERVER_DISCONNECT)
+                                    self.sockets.pop(sid, None)
                                 r = self._bad_request()
                             if sid in self.sockets and \
                                     self.sockets[sid].closed:
@@ -329,7 +335,11 @@ class AsyncServer(base_server.BaseServer):
                     r = self._ok(jsonp_index=jsonp_index)
                 except exceptions.EngineIOError:
                     if sid in self.sockets:  # pragma: no cover
-                        await self.disconnect(sid)
+                        # end the session without waiting for its queue to
+                        # be read: the client may never come back to read it
+                        await socket.close(
+                            wait=False, reason=self.reason.SERVER_DISCONNECT)
+                        self.sockets.pop(sid, None)
                     r = self._bad_request()
                 except:  # pragma: no cover
                     # for any other unexpected errors, we log the error
